@@ -37,7 +37,7 @@ def walk_monitor(expect):
 
 
 def main(tier=None):
-    c = Check("C01", ["Wasp.Properties.C01"], tier)
+    c = Check("C01", ["Wasp.Properties.C01", "Wasp.Properties.E2E", "Wasp.Properties.E2EMulti", "Wasp.Properties.Reachable2"], tier)
     c.build()
     rng = c.rng
     samples = []
